@@ -291,7 +291,7 @@ def run(F, rep):
     if not getattr(rep, 'nested', False):
         import core
         import c09
-        c09.run(F, core.Borrowed(rep, only={'C09.P1', 'C09.P2'}))
+        core.borrow(F, rep, c09, only={'C09.P1', 'C09.P2'})
     import c10
 
     # ------------------------------------------------------------------ G1: both sides are read the same way
